@@ -96,23 +96,26 @@ class DefaultHandler(BaseHandler):
             return last_seq, None
         file_list.sort()
         msg_file_name = file_list[-1]
-        try:
-            with open(msg_path + msg_file_name, 'r') as fh:
-                line = None
-                for line in fh:
-                    pass
-                last = line
-                if line:
-                    if last.startswith('['):
-                        last_seq = eval(last)[1]
-                    elif last.startswith('{'):
-                        last_seq = json.loads(last)['seq']
-        except OSError:
-            LOG.error('Error when reading bgp message files')
-        except Exception as e:
-            LOG.debug(traceback.format_exc())
-            LOG.error(e)
-            sys.exit()
+        # the newest file is empty right after a rotation: the last record is in an older file
+        for file_name in reversed(file_list):
+            try:
+                with open(msg_path + file_name, 'r') as fh:
+                    line = None
+                    for line in fh:
+                        pass
+                    last = line
+                    if line:
+                        if last.startswith('['):
+                            last_seq = eval(last)[1]
+                        elif last.startswith('{'):
+                            last_seq = json.loads(last)['seq']
+                        break
+            except OSError:
+                LOG.error('Error when reading bgp message files')
+            except Exception as e:
+                LOG.debug(traceback.format_exc())
+                LOG.error(e)
+                sys.exit()
 
         return last_seq, msg_file_name
 
